@@ -1,0 +1,225 @@
+//! Verification hooks. Compiled only with the cargo feature `verif-hooks` (off by default).
+//!
+//! Everything in here is thread-local, read-only with respect to the algorithm's own state and
+//! has no effect unless a harness arms it (budgets default to "unlimited", logs and observers
+//! default to "off"), so enabling the feature does not change the behaviour of the library.
+//!
+//! * step counters with per-thread budgets in the loops that have no other progress measure,
+//! * branch hit counters, so that a harness can show which code its workload went through,
+//! * a log of segment divisions (requested point, point actually used, left/right swap),
+//! * an observer that receives the processed event and an in-order snapshot of the sweep line
+//!   status after every iteration of the subdivision loop.
+
+use super::boolean::sweep_event::SweepEvent;
+use super::boolean::Float;
+use super::splay::SplaySet;
+use std::cell::{Cell, RefCell};
+use std::cmp::Ordering;
+use std::rc::Rc;
+
+macro_rules! sites {
+    ($($name:ident),* $(,)?) => {
+        #[allow(non_camel_case_types)]
+        #[derive(Clone, Copy, Debug, PartialEq, Eq)]
+        #[repr(usize)]
+        pub enum Site { $($name),* }
+        pub const SITE_NAMES: &[&str] = &[$(stringify!($name)),*];
+    };
+}
+
+sites! {
+    // boolean/mod.rs
+    TrivialResult,
+    FullSweep,
+    // subdivide_segments.rs
+    SubEarlyBreak,
+    SubLeft,
+    SubRight,
+    SubRecomputeNext,
+    SubRecomputePrev,
+    SubRemovalNeighbourCheck,
+    // compute_fields.rs
+    CfNoPrev,
+    CfSameOperand,
+    CfSameOperandVerticalPrev,
+    CfOtherOperandVerticalPrev,
+    CfOtherOperand,
+    CfPrevInResultDirect,
+    CfPrevInResultInherited,
+    CfPrevInResultNone,
+    // possible_intersection.rs
+    PiNone,
+    PiPointSharedEndpoint,
+    PiPoint,
+    PiDivideFirst,
+    PiDivideSecond,
+    PiOverlapSameOperand,
+    PiOverlapLeftCoincide,
+    PiOverlapLeftCoincideDivide,
+    PiOverlapRightCoincide,
+    PiOverlapStaggered,
+    PiOverlapContained,
+    // divide_segment.rs
+    DsCalls,
+    DsCorner1Bump,
+    DsCorner2Swap,
+    // connect_edges.rs
+    CeContourNoPrev,
+    CeContourHole,
+    CeContourHoleSibling,
+    CeContourExteriorAbove,
+    // compare_segments.rs
+    CsCollinearSameOperandSameLeft,
+    CsCollinearSameOperand,
+    CsCollinearOtherOperand,
+}
+
+pub const N_SITES: usize = SITE_NAMES.len();
+
+#[derive(Clone, Copy, Debug, PartialEq, Eq)]
+#[repr(usize)]
+pub enum Loop {
+    /// events popped by `subdivide`
+    Sweep = 0,
+    /// passes of the bubble sort in `order_events`
+    BubblePass = 1,
+    /// steps of the contour walk in `connect_edges`
+    ContourStep = 2,
+    /// iterations of `get_next_pos`
+    NextPos = 3,
+}
+pub const LOOP_NAMES: [&str; 4] = ["sweep", "bubble-pass", "contour-step", "next-pos"];
+
+/// One call of `divide_segment`, coordinates widened to f64.
+#[derive(Clone, Copy, Debug, PartialEq)]
+pub struct Division {
+    pub left: (f64, f64),
+    pub right: (f64, f64),
+    pub requested: (f64, f64),
+    pub used: (f64, f64),
+    pub is_subject: bool,
+    pub swapped: bool,
+}
+
+thread_local! {
+    static HITS: RefCell<Vec<u64>> = RefCell::new(vec![0; N_SITES]);
+    static STEPS: Cell<[u64; 4]> = const { Cell::new([0; 4]) };
+    static BUDGET: Cell<[u64; 4]> = const { Cell::new([u64::MAX; 4]) };
+    static DIVISIONS: RefCell<Option<Vec<Division>>> = const { RefCell::new(None) };
+    static OBSERVER: Cell<(*mut (), &'static str)> = const { Cell::new((std::ptr::null_mut(), "")) };
+}
+
+#[inline]
+pub fn hit(site: Site) {
+    HITS.with(|h| h.borrow_mut()[site as usize] += 1);
+}
+
+/// Current hit counters as (site name, count).
+pub fn hits() -> Vec<(&'static str, u64)> {
+    HITS.with(|h| SITE_NAMES.iter().cloned().zip(h.borrow().iter().cloned()).collect())
+}
+
+pub fn hit_count(site: Site) -> u64 {
+    HITS.with(|h| h.borrow()[site as usize])
+}
+
+pub fn reset_hits() {
+    HITS.with(|h| h.borrow_mut().iter_mut().for_each(|c| *c = 0));
+}
+
+/// Arms (or with `u64::MAX` disarms) the budget of one loop for the current thread.
+pub fn set_budget(which: Loop, max_steps: u64) {
+    let mut b = BUDGET.with(|b| b.get());
+    b[which as usize] = max_steps;
+    BUDGET.with(|c| c.set(b));
+}
+
+pub fn reset_steps() {
+    STEPS.with(|s| s.set([0; 4]));
+}
+
+pub fn steps(which: Loop) -> u64 {
+    STEPS.with(|s| s.get()[which as usize])
+}
+
+/// Counts one step of `which`; panics with a distinctive message when the armed budget is exceeded.
+#[inline]
+pub fn step(which: Loop) {
+    let mut s = STEPS.with(|s| s.get());
+    s[which as usize] += 1;
+    STEPS.with(|c| c.set(s));
+    let budget = BUDGET.with(|b| b.get()[which as usize]);
+    if s[which as usize] > budget {
+        panic!(
+            "verif-budget-exceeded site={} steps={} budget={}",
+            LOOP_NAMES[which as usize], s[which as usize], budget
+        );
+    }
+}
+
+pub fn division_log_enable(on: bool) {
+    DIVISIONS.with(|d| *d.borrow_mut() = if on { Some(Vec::new()) } else { None });
+}
+
+pub fn take_division_log() -> Vec<Division> {
+    DIVISIONS.with(|d| match d.borrow_mut().as_mut() {
+        Some(v) => std::mem::take(v),
+        None => Vec::new(),
+    })
+}
+
+pub fn log_division(d: Division) {
+    DIVISIONS.with(|log| {
+        if let Some(v) = log.borrow_mut().as_mut() {
+            v.push(d)
+        }
+    });
+}
+
+pub fn division_log_enabled() -> bool {
+    DIVISIONS.with(|d| d.borrow().is_some())
+}
+
+pub type StatusObserver<'a, F> = dyn FnMut(&Rc<SweepEvent<F>>, &[Rc<SweepEvent<F>>]) + 'a;
+
+struct ObserverReset((*mut (), &'static str));
+impl Drop for ObserverReset {
+    fn drop(&mut self) {
+        OBSERVER.with(|o| o.set(self.0));
+    }
+}
+
+/// Runs `body` with `observer` installed for the current thread: after every iteration of the
+/// subdivision loop it is called with the event just processed and the sweep line status
+/// (bottom to top). The observer is removed again when `body` returns or unwinds.
+pub fn with_status_observer<F, R>(observer: &mut StatusObserver<'_, F>, body: impl FnOnce() -> R) -> R
+where
+    F: Float,
+{
+    let mut fat: &mut StatusObserver<'_, F> = observer;
+    let thin = &mut fat as *mut &mut StatusObserver<'_, F> as *mut ();
+    let previous = OBSERVER.with(|o| o.replace((thin, std::any::type_name::<F>())));
+    let _reset = ObserverReset(previous);
+    body()
+}
+
+/// Called by `subdivide` at the end of every iteration.
+pub fn observe_status<F, C>(event: &Rc<SweepEvent<F>>, sweep_line: &SplaySet<Rc<SweepEvent<F>>, C>)
+where
+    F: Float,
+    C: Fn(&Rc<SweepEvent<F>>, &Rc<SweepEvent<F>>) -> Ordering,
+{
+    let (thin, type_name) = OBSERVER.with(|o| o.get());
+    if thin.is_null() || type_name != std::any::type_name::<F>() {
+        return;
+    }
+    let status: Vec<Rc<SweepEvent<F>>> = sweep_line.verif_inorder().into_iter().map(|(k, _)| k.clone()).collect();
+    // Take the observer out while it runs so that a nested sweep started from inside it is not observed.
+    OBSERVER.with(|o| o.set((std::ptr::null_mut(), "")));
+    let _reset = ObserverReset((thin, type_name));
+    // SAFETY: `thin` points to the `&mut dyn FnMut` local of the `with_status_observer` frame that is
+    // still on this thread's stack (it is unset before that frame is left), and the element type was
+    // checked by name above.
+    let observer: &mut &mut StatusObserver<'_, F> = unsafe { &mut *(thin as *mut &mut StatusObserver<'_, F>) };
+    observer(event, &status);
+}
